@@ -149,23 +149,27 @@ Fixpoint refit (q : list frame) (m : nat) (nb : bool) (nl : tree) (sk sv : Z) : 
   | [], _ => []
   end.
 
+(* unlink the node T nb nl nk nv nr sitting in context p (two children: its in-order successor is unlinked instead and its
+   key/value moved into the node) and rebalance *)
+Definition splice (nb : bool) (nl : tree) (nk nv : Z) (nr : tree) (p : list frame) : option tree :=
+  match nl, nr with
+  | T _ _ _ _ _, T rb rl rk rv rr =>
+    let '((sb, sk, sv, sr), hp) := leftmost rb rl rk rv rr (PR nb nl nk nv :: p) in
+    let hp' := refit hp (length hp - length p - 1)%nat nb nl sk sv in
+    if sb then delfix sr hp' else Some (blacken (plug sr hp'))
+  | _, _ =>
+    let child := match nl with E => nr | _ => nl end in
+    match p with
+    | [] => Some (blacken child)
+    | _ => if nb then delfix child p else Some (blacken (plug child p))
+    end
+  end.
+
 Definition remove (t : tree) (key : Z) : option tree :=
   match find_first t key [] with
   | None => Some t
   | Some (E, _) => Some t
-  | Some (T nb nl nk nv nr, p) =>
-    match nl, nr with
-    | T _ _ _ _ _, T rb rl rk rv rr =>
-      let '((sb, sk, sv, sr), hp) := leftmost rb rl rk rv rr (PR nb nl nk nv :: p) in
-      let hp' := refit hp (length hp - length p - 1)%nat nb nl sk sv in
-      if sb then delfix sr hp' else Some (blacken (plug sr hp'))
-    | _, _ =>
-      let child := match nl with E => nr | _ => nl end in
-      match p with
-      | [] => Some (blacken child)
-      | _ => if nb then delfix child p else Some (blacken (plug child p))
-      end
-    end
+  | Some (T nb nl nk nv nr, p) => splice nb nl nk nv nr p
   end.
 
 (* queries; a visitor is a function value -> bool ("continue?"); results are (visited values, continue) *)
